@@ -81,6 +81,20 @@ var hostileNames = []string{
 	"gorums.quorumcall", "dev.ZorumsService.QuorumCall.", ".dev.ZorumsService.QuorumCall", "google.rpc.Status", "google.rpc.Code",
 }
 
+// hostileLength picks a length prefix that does not match the frame: small values around the real
+// sizes, and the boundary values at which a decoder's own arithmetic (int conversion, n + size)
+// wraps around.
+func hostileLength(r uint64, frameLen int) uint64 {
+	switch r % 4 {
+	case 0, 1:
+		return (r >> 4) % 300
+	case 2:
+		return uint64(frameLen) + (r>>4)%3 - 1
+	}
+	edges := []uint64{1 << 31, 1<<31 - 1, 1 << 32, 1<<32 - 1, 1 << 40, 1 << 62, 1<<63 - 1, 1 << 63, 1<<63 + 1, 1<<63 + uint64(frameLen), ^uint64(0), ^uint64(0) - uint64(frameLen), ^uint64(0) - 1}
+	return edges[(r>>4)%uint64(len(edges))]
+}
+
 // maybeCorrupt mutates the marshalled frame with probability CorruptP. All randomness comes
 // from the calling task's deterministic stream.
 func (w *World) maybeCorrupt(b []byte) []byte {
@@ -107,7 +121,7 @@ func (w *World) maybeCorrupt(b []byte) []byte {
 	case 2: // rewrite the metadata length prefix
 		_, n := protowire.ConsumeVarint(out)
 		if n > 0 {
-			nl := (r >> 8) % 300
+			nl := hostileLength(r>>8, len(out))
 			out = append(protowire.AppendVarint(nil, nl), out[n:]...)
 		}
 		name = "md-length"
@@ -116,10 +130,7 @@ func (w *World) maybeCorrupt(b []byte) []byte {
 		if n > 0 && md != nil {
 			_, m := protowire.ConsumeVarint(out[n:])
 			if m > 0 {
-				nl := (r >> 8) % 300
-				if (r>>20)%4 == 0 {
-					nl = 1 << 40
-				}
+				nl := hostileLength(r>>8, len(out))
 				out = append(append(append([]byte(nil), out[:n]...), protowire.AppendVarint(nil, nl)...), out[n+m:]...)
 			}
 		}
